@@ -46,6 +46,14 @@ def cases(tier: str, seed: int) -> List[Dict[str, Any]]:
             if 23 - M <= dmax:
                 out.append({"E": E, "M": M, "srbits": 0, "tier": tier, "seed": seed})
             out.append({"E": E, "M": M, "srbits": 0, "kind": "indep", "seed": seed})
+    # histories: formats sharing (E, M) but differing in srbits / rounding used in sequence in one
+    # process; and float16 / bfloat16 / float64 inputs (quantisation still happens in float32)
+    for E, M in ((4, 3), (5, 2), (2, 1), (5, 10)):
+        out.append({"E": E, "M": M, "srbits": 0, "kind": "history", "seq": [0, 3, 0, 1, 8, 0], "tier": tier, "seed": seed})
+        out.append({"E": E, "M": M, "srbits": 3, "kind": "history", "seq": [3, 0, "nearest", 3, 5], "tier": tier, "seed": seed})
+        for dt in ("float16", "bfloat16", "float64"):
+            for sr in (2, 5):
+                out.append({"E": E, "M": M, "srbits": sr, "tier": tier, "seed": seed, "dtype": dt})
     return out
 
 
@@ -97,6 +105,21 @@ def run_case(case: Dict[str, Any]) -> Dict[str, Any]:
 
     E, M, sr = case["E"], case["M"], case["srbits"]
     viol: List[Dict[str, str]] = []
+    if case.get("kind") == "history":
+        steps = 0
+        for pos, s_ in enumerate(case["seq"]):
+            if s_ == "nearest":
+                FPFormat(E, M, rounding="nearest").quantise(torch.linspace(-2, 2, 33))
+                continue
+            if s_ and s_ >= 23 - M:
+                continue
+            r = run_case({"E": E, "M": M, "srbits": s_, "tier": "quick", "seed": case["seed"], "cap": 64})
+            steps += r.get("steps", 0)
+            for v in r["violations"]:
+                viol.append({"key": v["key"] + f"|history_pos={pos}", "msg": v["msg"] + f" (after formats with srbits {case['seq'][:pos]})"})
+            if viol:
+                break
+        return {"violations": viol[:4], "steps": steps, "n_states": steps, "outcome": "history"}
     fmt = FPFormat(E, M, rounding="stochastic", srbits=sr)
     nbits = fmt.srbits
     if nbits != (sr if sr else 23 - M):
@@ -123,10 +146,15 @@ def run_case(case: Dict[str, Any]) -> Dict[str, Any]:
             viol.append({"key": "indep|all_elements_same_draw", "msg": f"E{E}M{M}: 200 equal inputs at 1/4 position all rounded to {q[0,0].item()}"})
         return {"violations": viol, "steps": 200, "n_states": 200, "outcome": "indep"}
 
-    cap = 600 if case["tier"] == "quick" else 4000
+    cap = case.get("cap") or (600 if case["tier"] == "quick" else 4000)
     # keep (inputs x draws) bounded
     cap = max(16, min(cap, 2**24 // 2**nbits))
     x = _inputs(E, M, case["tier"], case["seed"], cap)
+    in_dtype = getattr(torch, case.get("dtype", "float32"))
+    if in_dtype is not torch.float32:
+        tag += f"|dtype={case['dtype']}"
+        x = torch.unique(x.to(in_dtype).to(torch.float32))  # inputs exactly representable in the tensor dtype
+        x = x[torch.isfinite(x) & (x.abs() <= fp.max_value(E, M))]
     n, D = x.numel(), 2**nbits
     xr = x[:, None].expand(n, D).contiguous()
 
@@ -136,7 +164,10 @@ def run_case(case: Dict[str, Any]) -> Dict[str, Any]:
 
     try:
         with mock.patch.object(torch, "randint", enum):
-            q = fmt.quantise(xr)
+            q = fmt.quantise(xr.to(in_dtype))
+        if q.dtype != in_dtype:
+            return {"violations": [{"key": f"{tag}|dtype_changed", "msg": f"E{E}M{M}: {in_dtype} -> {q.dtype}"}], "steps": 1}
+        q = q.to(torch.float32)
     except AssertionError as e:
         return {"violations": [{"key": f"{tag}|randint_request", "msg": f"E{E}M{M} sr={nbits}: {e}"}], "steps": 1}
     except Exception as e:  # noqa
